@@ -154,15 +154,24 @@ def sym_structures(tier):
         for pat in (PATTERNS[:2] if tier == "quick" else PATTERNS):
             for pat2 in ("pos", "neg"):
                 sts.append({**cfg, "p1": pat, "p2": pat2})
+        # exact zeros in a block of the vector (one repetition / one excitation class only): two consecutive vectors with the same zero pattern (the update
+        # happens in place on a circuit that was built without the vanishing generators), and zeros followed by a full vector (the circuit must be rebuilt)
+        if cfg["cls"] in ("UCCSD", "UpCCGSD", "UCCGD", "pUCCD", "VSQS", "ADAPTAnsatz"):
+            for p1, p2 in (("zlast", "zlast"), ("zfirst", "zfirst"), ("zlast", "pos"), ("zfirst", "neg")):
+                sts.append({**cfg, "p1": p1, "p2": p2})
     return sts
 
 
 def sym_params(h, n, prefix, pattern):
     """symbolic parameter vector with a fixed sign pattern (the sign decides which branch of 'coef >= 0' is taken)"""
     out = []
+    nz = max(1, n // 3)
     for i in range(n):
+        if (pattern == "zlast" and i >= n - nz and n > 1) or (pattern == "zfirst" and i < nz and n > 1):
+            out.append(0.0)
+            continue
         v = h.real(f"{prefix}{i}")
-        sign = {"pos": 1, "neg": -1, "alt": 1 if i % 2 == 0 else -1, "large": 1}[pattern]
+        sign = {"pos": 1, "neg": -1, "alt": 1 if i % 2 == 0 else -1, "large": 1, "zlast": 1, "zfirst": -1}[pattern]
         lo, hi = (7.0, 50.0) if pattern == "large" else (0.05, 3.0)
         h.assume(v * sign > lo)
         h.assume(v * sign < hi)
@@ -237,6 +246,10 @@ def draw(rnd, n, kind):
         return [0.0] * n
     if kind == "some_zero":
         return [0.0 if i % 2 else rnd.uniform(-1, 1) for i in range(n)]
+    if kind == "zero_last":
+        return [0.0 if (i >= n - max(1, n // 3) and n > 1) else rnd.uniform(-1, 1) for i in range(n)]
+    if kind == "zero_first":
+        return [0.0 if (i < max(1, n // 3) and n > 1) else rnd.uniform(-1, 1) for i in range(n)]
     if kind == "flip":
         return [(-1) ** i * 0.3 for i in range(n)]
     if kind == "repeat":
@@ -250,7 +263,8 @@ def draw(rnd, n, kind):
           native_samples=lambda st, rnd, tier: [{"seed": rnd.randint(0, 10 ** 6)} for _ in range(2 if tier == "quick" else 6)],
           targets=[(FILES[c], f"{c}.update_var_params") for c in FILES] + [(FILES[c], f"{c}.set_var_params") for c in FILES if c not in ("RUCC",)])
 def o1(h, st):
-    """bounded: for histories of 1-4 updates drawn from {zeros, some exact zeros, flipped signs, repeated values, values beyond 2 pi, random}, the circuit equals a
+    """bounded: for histories of 1-4 updates drawn from {zeros, some exact zeros, exact zeros in the first / last third
+    (repeated with the same zero pattern), flipped signs, repeated values, values beyond 2 pi, random}, the circuit equals a
     fresh build with the final vector gate by gate (and as a unitary on <= 4 qubits); vectors of any other length are rejected; the advertised number of
     parameters is accepted"""
     import random
@@ -260,7 +274,8 @@ def o1(h, st):
     n = n_params(a)
     cls = st["cls"]
     HISTS = [("random", "random"), ("flip", "large"), ("repeat",), ("zeros", "random"), ("random", "zeros", "random"), ("some_zero", "random"),
-             ("large", "flip", "random", "repeat"), ("random", "some_zero"), ("random", "zeros")]
+             ("large", "flip", "random", "repeat"), ("random", "some_zero"), ("random", "zeros"),
+             ("zero_last", "zero_last"), ("zero_first", "zero_first"), ("random", "zero_last", "zero_last", "random"), ("some_zero", "some_zero"), ("zero_first", "zero_last")]
     for hist in HISTS:
         a = make_ansatz(h, st)
         if cls != "ADAPTAnsatz":
